@@ -392,6 +392,18 @@ def role_float(t, F=None, opt=None):
     return effects.rebuild(effects.strip_uid(t), f)
 
 
+def _canon_guard(t, v):
+    """integer comparisons modulo spelling: `!(a <= b)` is `b < a`, `a > b` is `b < a` (float comparisons are left alone: NaN)"""
+    if isinstance(t, tuple) and t and t[0] == 'bin' and t[1] in ('Lt', 'Le', 'Gt', 'Ge') and not isinstance(v, tuple):
+        op, a, b = t[1], t[2], t[3]
+        if op in ('Gt', 'Ge'):
+            op, a, b = ('Lt' if op == 'Gt' else 'Le'), b, a
+        if not v:
+            op, a, b = ('Le' if op == 'Lt' else 'Lt'), b, a
+        return (('bin', op, a, b), 1)
+    return (t, v)
+
+
 def ctor_shape(F, b):
     """(set of validation predicates with Err exits, scale term) of a float-table constructor."""
     ev, paths = rules.evaluate(b)
@@ -409,7 +421,7 @@ def ctor_shape(F, b):
             for t, v, _ in r.preds:
                 if opt is not None and t[0] == 'discr' and (t[1] == opt[0] or t[1] == ('in', (opt[0][1],))):
                     continue
-                guards.add(repr((role_float(t, F, opt), v)))
+                guards.add(repr(_canon_guard(role_float(t, F, opt), v)))
         for e in r.events:
             if e['kind'] == 'call' and e['callee'] == 'core::ops::Div::div':
                 scale.add(repr(role_float(e['result'], F, opt)))
